@@ -7,6 +7,7 @@ import (
 	"net"
 	"runtime"
 	"sync"
+	"sync/atomic"
 	"testing"
 	"time"
 
@@ -34,6 +35,8 @@ const (
 	c33ClientDeadline = 4 * time.Second
 	c33Limit          = 3 * c33ClientDeadline
 )
+
+var hangsSeen atomic.Int64 // shared by C33 and C34 (separate processes)
 
 // fieldMutations: format-aware mutations per (tls13?, handshake type).
 type fieldMut struct {
@@ -1495,6 +1498,7 @@ func TestC33(t *testing.T) {
 			rep["stack"] = res.hung.Stack
 			if parkedState(res.hung.State) {
 				sig["kind"] = "hang"
+				hangsSeen.Add(1)
 				r.Violation(sig, fmt.Sprintf("%s: client call still parked (%s) %.1fs after start, connection deadline %s", id, res.hung.State, res.hung.Took.Seconds(), c33ClientDeadline), rep)
 				return "hang"
 			}
@@ -1555,6 +1559,9 @@ func TestC33(t *testing.T) {
 	// ---- structured pass (parallel) ----
 	var sampleN int64
 	parallelW(len(sel), func(w, i int) {
+		if hangsSeen.Load() >= 5 {
+			return // every hang costs the full bound: a handful of witnesses is enough
+		}
 		p := sel[i]
 		mon.JournalSlot(fmt.Sprintf("w%02d", w), p.cs.id)
 		res := c33Run(p.cs, p.sl.ch, p.sl.o, cloneCache(p.sl.cache, p.sl.tg, p.sl.sc))
@@ -1583,6 +1590,9 @@ func TestC33(t *testing.T) {
 			n = len(all)
 		}
 		parallelW(n, func(w, k int) {
+			if hangsSeen.Load() >= 5 {
+				return // every hang costs the full bound: a handful of witnesses is enough
+			}
 			p := all[perm[k]]
 			p.cs.silent = true
 			p.cs.seed += 9000
@@ -1600,6 +1610,9 @@ func TestC33(t *testing.T) {
 	{
 		n := mon.Pick(10000, 200000)
 		parallelW(n, func(w, k int) {
+			if hangsSeen.Load() >= 5 {
+				return // every hang costs the full bound: a handful of witnesses is enough
+			}
 			rg := Sub("C33raw", k)
 			tg := targets[rg.Intn(len(targets))]
 			name, stream := rawStream(rg)
@@ -1638,6 +1651,9 @@ func TestC33(t *testing.T) {
 		}
 		perm := Sub("C33rec-sel", 0).Perm(len(cases))
 		parallelW(n, func(w, k int) {
+			if hangsSeen.Load() >= 5 {
+				return // every hang costs the full bound: a handful of witnesses is enough
+			}
 			cse := cases[perm[k]]
 			id := fmt.Sprintf("record|%s|%04x|%s", cse.tg.Name, cse.max, cse.mode)
 			mon.JournalSlot(fmt.Sprintf("w%02d", w), id)
